@@ -443,6 +443,23 @@ func c20Producer(r *Run, db *SiteDB) {
 	}
 	var okType, okPath bool
 	fiVar := ""
+	// the Type may also be given in the literal that creates the QID: p9.QID{Type: ...}
+	ast.Inspect(inf.Decl.Body, func(n ast.Node) bool {
+		cl, ok := n.(*ast.CompositeLit)
+		if !ok || !strings.HasSuffix(types.TypeString(info.TypeOf(cl), nil), "p9.QID") {
+			return true
+		}
+		for _, el := range cl.Elts {
+			if kv, ok := el.(*ast.KeyValueExpr); ok && norm(kv.Key) == "Type" {
+				rhs := norm(kv.Value)
+				if strings.HasPrefix(rhs, "p9.ModeFromOS(") && strings.HasSuffix(rhs, ".Mode()).QIDType()") {
+					okType = true
+					fiVar = strings.TrimSuffix(strings.TrimPrefix(rhs, "p9.ModeFromOS("), ".Mode()).QIDType()")
+				}
+			}
+		}
+		return true
+	})
 	ast.Inspect(inf.Decl.Body, func(n ast.Node) bool {
 		as, ok := n.(*ast.AssignStmt)
 		if !ok || len(as.Lhs) < 1 || len(as.Rhs) != 1 {
